@@ -497,3 +497,135 @@ Proof.
     split; [reflexivity|]. rewrite E1 in E2. exact E2.
 Qed.
 
+(** * Statements used by Props/C09.v *)
+
+Definition sized_b (fam : family) : bool :=
+  forallb (fun p : Z * list tstep => Z.of_nat (length (snd p)) <=? MAXUINT) fam.
+
+Lemma sized_b_sound fam : sized_b fam = true -> sized fam.
+Proof.
+  unfold sized_b, sized. induction fam as [|[n s] fam IH]; intros H g steps Hl; [discriminate|].
+  cbn [forallb snd] in H. cbn [lookup] in Hl. apply andb_true_iff in H. destruct H as [H1 H2].
+  destruct (n =? g).
+  - inversion Hl; subst. apply Z.leb_le. exact H1.
+  - eapply IH; eauto.
+Qed.
+
+Lemma refines_spec_fuel fam root c fuel :
+  sized fam ->
+  exists st,
+    run fuel fam (init_state root c) [] =
+      Ok (st, fst (fst (spec_run fuel fam (flow_steps fam root) c)),
+          snd (spec_run fuel fam (flow_steps fam root) c)) /\
+    ms_core st = snd (fst (spec_run fuel fam (flow_steps fam root) c)).
+Proof.
+  intros Hsz.
+  destruct (run_spec fam Hsz fuel (init_state root c) [] (uint_ok_init root c)) as (st & H1 & H2).
+  rewrite remaining_init in H1, H2. cbn [app ms_core init_state] in H1, H2. exists st. auto.
+Qed.
+
+Lemma refines_spec fam root c fuel :
+  sized fam -> stratified fam = true -> (fuel_bound fam <= fuel)%nat ->
+  exists st,
+    run fuel fam (init_state root c) [] = Ok (st, fst (exec_flow fam root c), true) /\
+    ms_core st = snd (exec_flow fam root c).
+Proof.
+  intros Hsz Hstr Hf.
+  destruct (refines_spec_fuel fam root c fuel Hsz) as (st & H1 & H2).
+  pose proof (stratified_spec fam [] [] (fun x H => H) Hstr root c fuel (fun H => H)) as Hs.
+  cbn [app] in Hs. rewrite Hs in H1, H2 by (unfold fuel_bound in Hf; lia).
+  exists st. auto.
+Qed.
+
+Lemma never_aborts fam root c fuel :
+  sized fam -> exists st log d, run fuel fam (init_state root c) [] = Ok (st, log, d).
+Proof.
+  intros Hsz. destruct (refines_spec_fuel fam root c fuel Hsz) as (st & H1 & _). eauto.
+Qed.
+
+Lemma never_panics fam root c fuel :
+  sized fam -> run fuel fam (init_state root c) [] <> Panic.
+Proof.
+  intros Hsz. destruct (never_aborts fam root c fuel Hsz) as (st & log & d & H). rewrite H. discriminate.
+Qed.
+
+Lemma step_panic_contained sid body c :
+  actions_of body c = Panic ->
+  exec_step (sid, body) c =
+    (mkEntry sid [] (ICActions :: snd (actor_part c)) [] (c_actor c) (fst (actor_part c)), c, None).
+Proof. intros H. unfold exec_step. rewrite H. destruct (actor_part c). reflexivity. Qed.
+
+Lemma action_failure_contained acts c :
+  snd (fst (spec_actions acts 0 c)) = apply_all (executed acts) c /\
+  forall n, In (ICAction (Z.of_nat n)) (fst (fst (fst (spec_actions acts 0 c)))) <->
+            exists a, nth_error (executed acts) n = Some a /\
+                      result_of a (apply_all (firstn n (executed acts)) c) <> Ok tt.
+Proof.
+  split; [apply spec_actions_core|]. intros n. rewrite spec_actions_issue_iff. split.
+  - intros (n' & a & Hk & Hn & Hr). assert (n = n') by lia. subst. eauto.
+  - intros (a & Hn & Hr). exists n, a. auto.
+Qed.
+
+Lemma log_one_per_step fam st log :
+  sized fam -> uint_ok st ->
+  match remaining fam st with
+  | [] => exists st', next_step fam st log = Ok (st', log, false)
+  | ts :: _ =>
+      exists st', next_step fam st log = Ok (st', log ++ [fst (fst (exec_step ts (ms_core st)))], true) /\
+                  e_sid (fst (fst (exec_step ts (ms_core st)))) = fst ts
+  end.
+Proof.
+  intros Hsz Hu. destruct (remaining fam st) as [|ts more] eqn:Hrem.
+  - destruct (next_step_end fam st log Hrem) as (st' & H & _). eauto.
+  - destruct (exec_step ts (ms_core st)) as [[e c'] sw] eqn:Hex.
+    destruct (next_step_exec fam st log ts more e c' sw Hsz Hu Hrem Hex) as (st' & H & _).
+    exists st'. split; [exact H|]. cbn [fst].
+    destruct ts as [sid body]. unfold exec_step in Hex.
+    destruct (actions_of body (ms_core st)) as [acts0| | |];
+      try (destruct (actor_part (ms_core st)); inversion Hex; reflexivity).
+    destruct (spec_actions acts0 0 (ms_core st)) as [[[? ?] c1] ?]. destruct (actor_part c1).
+    inversion Hex. reflexivity.
+Qed.
+
+Lemma linear_flow_log fam root steps c fuel :
+  sized fam -> lookup fam root = Some steps -> flow_targets steps = [] -> (length steps < fuel)%nat ->
+  exists st log, run fuel fam (init_state root c) [] = Ok (st, log, true) /\ map e_sid log = map fst steps.
+Proof.
+  intros Hsz Hl Ht Hf.
+  destruct (refines_spec_fuel fam root c fuel Hsz) as (st & H1 & _).
+  unfold flow_steps in H1. rewrite Hl in H1.
+  destruct (spec_run_linear fam steps fuel c Ht Hf) as [Ha Hb]. rewrite Hb in H1. eauto.
+Qed.
+
+Lemma measured_concat fam root c fuel st log d :
+  sized fam -> run fuel fam (init_state root c) [] = Ok (st, log, d) ->
+  c_measured (ms_core st) = c_measured c ++ concat (map e_measured log).
+Proof.
+  intros Hsz H. destruct (refines_spec_fuel fam root c fuel Hsz) as (st' & H1 & H2).
+  rewrite H in H1. inversion H1; subst. rewrite H2. apply spec_run_measured.
+Qed.
+
+Lemma switch_skips_rest fam st log sid pre a post g more :
+  sized fam -> uint_ok st ->
+  remaining fam st = (sid, SStatic (pre ++ a :: post)) :: more ->
+  Forall (fun x => sets_flow x = None) pre -> sets_flow a = Some g ->
+  exists st' e, next_step fam st log = Ok (st', log ++ [e], true) /\
+    remaining fam st' = flow_steps fam g /\
+    e_actions e = pre ++ a :: post /\
+    ms_core st' = snd (fst (spec_actions (pre ++ [a]) 0 (ms_core st))) /\
+    e_measured e = snd (fst (fst (spec_actions (pre ++ [a]) 0 (ms_core st)))) /\
+    e_issues e = fst (fst (fst (spec_actions (pre ++ [a]) 0 (ms_core st)))) ++ snd (actor_part (ms_core st')).
+Proof.
+  intros Hsz Hu Hrem Hpre Ha.
+  destruct (spec_actions_skip pre a post g 0 (ms_core st) Hpre Ha) as [E1 E2].
+  destruct (exec_step (sid, SStatic (pre ++ a :: post)) (ms_core st)) as [[e c'] sw] eqn:Hex.
+  destruct (next_step_exec fam st log _ more e c' sw Hsz Hu Hrem Hex) as (st' & H & Hc & _ & Hr).
+  unfold exec_step in Hex. cbn [actions_of] in Hex. rewrite E1 in Hex. rewrite E1 in E2.
+  destruct (spec_actions (pre ++ [a]) 0 (ms_core st)) as [[[iss m] c1] sw1].
+  destruct (actor_part c1) as [code aiss] eqn:Eact. injection Hex as He Hc1 Hsw.
+  subst e. rewrite <- Hc1 in Hc. rewrite <- Hsw in Hr. cbn [snd] in E2. rewrite E2 in Hr.
+  exists st', {| e_sid := sid; e_actions := pre ++ a :: post; e_issues := iss ++ aiss; e_measured := m;
+                 e_actor := c_actor c1; e_code := code |}.
+  cbn [fst snd e_actions e_measured e_issues]. rewrite Hc, Eact. cbn [snd].
+  repeat split; auto.
+Qed.
